@@ -2,8 +2,19 @@
 import enginecheck as ec, histmodel
 from props import engcommon
 LEVEL = 'proof'; TRUSTED = engcommon.TRUSTED_ENGINE; ASSUMPTIONS = engcommon.ASSUMPTIONS_ENGINE
+def real_binary(ctx):
+    import os, vlib, realbin
+    ninja = os.path.join(vlib.build_impl('plain'), 'ninja')
+    for name, w in realbin.exit_codes(ninja):
+        ctx.violation(name, 'real binary: tools/realbin.py exit_codes\n', w)
+
 def run(ctx):
-    engcommon.run_engine_property(ctx, 'C05', plan_accept=600, oracles=[('failure', lambda h, st, b, prev: ec.oracle_c05(h, st, b, prev[1]))], faults=0.7, feat=dict(dyndep=0.2))
+    if not ctx.replay: real_binary(ctx)
+    def motifs(ctx):
+        import random
+        rnd = random.Random(ctx.seed * 5 + 2)
+        return [ec.motif_restat_prune_failed_oo(rnd, 'C05_rp%d' % i) for i in range(60 if ctx.quick() else 600)]
+    engcommon.run_engine_property(ctx, 'C05', plan_accept=600, oracles=[('failure', lambda h, st, b, prev: ec.oracle_c05(h, st, b, prev[1]))], faults=0.7, feat=dict(dyndep=0.2), extra_hists=motifs)
     # the failing-command model (coq/Engine/HistFailDefs.v, theorems of Properties_C05hist.v) run against the real engine:
     # one failing invocation (-j1 -k1) per history, then the invocations that follow
     histmodel.hook(ctx, 'C05', fault=True, quick=300, thorough=3000, key='hist_model_failing_commands')
